@@ -392,7 +392,9 @@ def build(s):
         bc = k.get("tpm_bc", False)
         leaf = make_cert(k.get("tpm_subject", x509.Name([])), pki.issuer_name, att_cred.pk, k.get("leaf_signer") or pki.issuer_key,
                          nb=leaf_nb, na=leaf_na, ca=bc, exts=exts)
-        sig = raw_sign(k.get("att_signer", att_cred).sk, att_scheme, k.get("tpm_signed_cert_info", cert_info))
+        sig = raw_sign(k.get("att_signer", att_cred).sk, k.get("tpm_sig_scheme", att_scheme), k.get("tpm_signed_cert_info", cert_info))
+        if "sig_wrap" in k:
+            sig = k["sig_wrap"](sig)          # e.g. the TPMT_SIGNATURE structure around a signature made with ANOTHER scheme than attStmt.alg names
         stmt = {"ver": k.get("tpm_ver", "2.0"), "alg": att_alg, "x5c": chain(leaf), "sig": sig, "certInfo": cert_info, "pubArea": pub_area}
     elif fmt == "apple":
         nonce = hashlib.sha256(signed_ad + signed_cdh).digest()
